@@ -19,7 +19,7 @@
    under the same or a rotated ID.
 
    Admissible histories (live_hop): any number of clients, all cookie-following,
-   no planned faults, no crashes, no GetAndDelete; every cache size (with size 0
+   no planned faults, no crashes, any handler scripts; every cache size (with size 0
    nothing is promised), every duration, every tie-break list; waits (clean-ups
    fire) not negative, purges, user-wide logouts and refreshes, other clients'
    requests with any script, configuration changes that keep the codec and the
@@ -174,7 +174,7 @@ Theorem C01L_live_hop_meaning :
   forall n b j h,
   live_hop n b j h =
   match h with
-  | HReq _ => c01_hop false h
+  | HReq _ => c01_hop h
   | HWait d => (0 <=? d)%Z
   | HPurge _ pl | HLogoutUser _ _ pl | HRefreshUser _ _ pl => nil_plan pl
   | HDropCache | HRestart => false
